@@ -17,7 +17,7 @@ Walks == { WQ(k, by, p, l, w, r, ct) : k \in {"amounts", "counts"}, by \in {"src
          \* requests WITHOUT a pagination block (the SDK's default page), continued by next-key
          \cup { WQ(k, by, p, 0, "nopage", FALSE, FALSE) : k \in {"amounts", "counts"}, by \in {"src", "dst"}, p \in {"IBC", "CCTP", "HYP", "INT"} }
 DQ(kind, sc, dp, dc, dn) == QueryIn([DefQ EXCEPT !.kind = kind, !.by = "direct", !.sp = "IBC", !.sc = sc, !.dp = dp, !.dc = dc, !.denom = dn])
-Directs == { DQ(k, sc, dst[1], dst[2], dn) : k \in {"amounts", "counts"}, sc \in {"channel-0", "channel-1"},
+Directs == { DQ(k, sc, dst[1], dst[2], dn) : k \in {"amounts", "counts"}, sc \in {"channel-0", Chan1Id},
                dst \in { <<"CCTP", "0">>, <<"CCTP", "1">>, <<"CCTP", "2">>, <<"HYP", "1">>, <<"HYP", "2">>, <<"INT", "noble">>, <<"IBC", "channel-0">> },
                dn \in {"uusdc", "ustake"} }
            \cup { QueryIn([DefQ EXCEPT !.kind = "amounts", !.by = "direct", !.sp = "CCTP", !.sc = "1", !.dp = "HYP", !.dc = "2", !.denom = "uusdc"]),
